@@ -327,6 +327,12 @@ def cummin_aggregate(x, y):
     if is_series_like(x) or is_dataframe_like(x):
         return x.where((x < y) | x.isnull(), y, axis=x.ndim - 1)
     else:  # scalar
+        # propagate a missing value (skipna=False) whichever side it is on;
+        # the builtin ``min`` only does so when it comes first
+        if pd.isna(x):
+            return x
+        if pd.isna(y):
+            return y
         return min(x, y)
 
 
@@ -338,6 +344,12 @@ def cummax_aggregate(x, y):
     if is_series_like(x) or is_dataframe_like(x):
         return x.where((x > y) | x.isnull(), y, axis=x.ndim - 1)
     else:  # scalar
+        # propagate a missing value (skipna=False) whichever side it is on;
+        # the builtin ``max`` only does so when it comes first
+        if pd.isna(x):
+            return x
+        if pd.isna(y):
+            return y
         return max(x, y)
 
 
